@@ -13,6 +13,11 @@ from lib import c04_util as U
 SPEC = os.path.join(os.path.dirname(os.path.dirname(os.path.abspath(__file__))), "spec", "c04_tables.json")
 ACTION = "quill::tree::mappings_diff::action::Action"
 
+# gen_diff_javadoc / gen_diff_names / TinyLine::action and apply_diff_option's old-value guards decide with `==` of the model types: that
+# equality being structural (derived, or field-wise) is decided by C09 R09.1 equality-is-structural (seed C09-13: comments compared
+# with trailing white space trimmed - diff(A, B) is then empty although A != B)
+PREMISES = [("C09", ["R09.1:equality-is-structural"])]
+
 CLAIM = {
     "text": "Decided for quill's diff machinery, by pattern-matrix evaluation of the type-checked HIR for every Action variant "
             "(None/Add/Remove/Edit) against spec/c04_tables.json: (R04.1) apply_diff_map handles the three key cases with the "
